@@ -1,2 +1,8 @@
 import Mutiny.Model.Ring
 import Mutiny.Model.LockRing
+import Mutiny.Model.Handles
+import Mutiny.Proofs.RingInv
+import Mutiny.Proofs.RingProps
+import Mutiny.Props.C01
+import Mutiny.Props.C02
+import Mutiny.Props.C16
